@@ -15,7 +15,7 @@ FUNCTIONS = [
     'whirlpool::state::tick::Tick::check_is_valid_start_tick',
 ]
 BOUNDS = [
-    'tick spacings: quick {1, 8, 64, 32896}, thorough additionally {2, 128, 256, 32768} for (a) dynamic array and (d); a symbolic spacing did not finish (900-1500 s)',
+    'tick spacings: quick {1, 8, 64, 32896}, thorough additionally {2, 128, 256, 32768} for (a) dynamic array and (d); a symbolic spacing did not finish under CBMC (900-1500 s); the L1 offset lemma itself (floor division, 0 <= off < 88 iff tick inside the array) is decided for EVERY spacing 1..65535 by Engine M (props/c10m.py)',
     '(a) dynamic array: all 2^128 bitmaps, every valid start index (incl. the array straddling MIN_TICK_INDEX), every i32 search tick, both directions, unwind 90',
     '(a) fixed array REDUCED: 14 concrete start offsets (87 leftwards and -1 rightwards = full-length hand-over searches; 0..5 leftwards; 81..86 rightwards), spacing 8 and 128; symbolic initialized byte of all 88 slots, start index, search tick; a symbolic offset did not finish (900 s) / 13 GB',
     '(b) 2 dynamic arrays, start_array_index 0 (and index 2 for the running-off error), spacing 64, per direction; symbolic valid start indexes (so adjacent and non-adjacent arrays), bitmaps, search tick; a symbolic array count / index ran out of time (1200 s) / memory (13 GB); 3 arrays not finished in time',
@@ -39,7 +39,8 @@ OUTSIDE = [
 
 def run(ctx):
     # Engine M complement (props/mextra.py): at loop level exactly the searched initialised ticks are crossed, each once, in price order (Floyd verification shared with C03)
-    from props import mextra
+    from props import mextra, c10m
     ctx.mir()
-    ctx.parallel(mextra.c10_tasks(), max_procs=8)
+    # offset_lemma: the floor lemma of tick_offset/get_offset for a SYMBOLIC spacing (the Kani L1 harnesses decide it for eight concrete spacings)
+    ctx.parallel([('offset_lemma', c10m.offset_lemma_task)] + mextra.c10_tasks(), max_procs=8)
     ctx.run_kani(['c10.rs'])
